@@ -54,7 +54,12 @@ func (o *goSliceObject) setLength(value Value) {
 		// No change needed.
 	case wantInt < o.value.Cap():
 		// Fits in current capacity.
-		o.value.SetLen(wantInt)
+		if o.value.CanSet() {
+			o.value.SetLen(wantInt)
+		} else {
+			// A slice that was passed by value is not addressable: reslice the copy held here.
+			o.value = o.value.Slice(0, wantInt)
+		}
 	default:
 		// Needs expanding.
 		newSlice := reflect.MakeSlice(o.value.Type(), wantInt, wantInt)
